@@ -176,13 +176,13 @@ def subchecks():
             name="requests",
             run_case=run_case,
             strategy=lambda tier: ruleforms.form_case(tier, with_zeros=True),
-            examples={"quick": 8000, "thorough": 120000},
+            examples={"quick": 8000, "thorough": 400000},
         ),
         SubCheck(
             name="forest-spec",
             run_case=run_forest_spec,
             strategy=lambda tier: gen.scenario(tier, dbs=["Forest"]),
-            examples={"quick": 1200, "thorough": 20000},
+            examples={"quick": 1200, "thorough": 60000},
             case_timeout=20.0,
         ),
     ]
